@@ -354,7 +354,7 @@ func (f *Font) GetOTLigatureCarets(direction Direction, glyph GID) []Position {
 		return nil
 	}
 
-	index, ok := list.Coverage.Index(gID(glyph))
+	index, ok := list.Coverage.Index(gid16(glyph))
 	if !ok || index >= len(list.LigGlyphs) {
 		return nil
 	}
